@@ -266,7 +266,7 @@ func applyOpsToView(v *View, s Script) {
 		case "hook":
 			v.Hooks[op.Key] = append(v.Hooks[op.Key], mkHook(w, op.Key).Path)
 		case "cgroups":
-			v.Cgroups = "/cg/" + whoName(w)
+			v.Cgroups = cgPath(w)
 		case "oom":
 			v.Oom = fmt.Sprint(oomVal(w))
 		default:
